@@ -60,7 +60,7 @@ def run(s):
         if not s.mine(h):
             continue
         text = 'cr' if h % 6 == 5 else 'hostile'
-        K.fuzz_history(s, h, w, steps=(5, 30), text=text, direct=0.25)
+        K.fuzz_history(s, h, w, steps=(5, 30), text=text, direct=0.25, drop=0.1)
     s.hist['fuzz_histories_total'] = n
     # histories that end with a roDelete addressed to another roID followed by more messages, a second roDelete included
     for h in range(40 if q else 1500):
@@ -72,7 +72,8 @@ def run(s):
         ro = s.load(ro_txt)
         from ..canon import Abs
         ids = gen.Ids('E%d.' % h)
-        msgs = [B.msg_doc('roDelete', 50, ro_id=rng.choice(['RO', 'ELSEWHERE', 'ELSEWHERE']))]
+        env_ = {'mos_id': None, 'ncs_id': 'NCS'} if rng.random() < 0.4 else {}      # an envelope without <mosID>
+        msgs = [B.msg_doc('roDelete', 50, ro_id=rng.choice(['RO', 'ELSEWHERE', 'ELSEWHERE']), **env_)]
         msgs += [gen.rand_message(rng, Abs(ro_txt), rng.choice(B.ALL_KINDS), 60 + k, ids, pool=pool) for k in range(2)]
         msgs += [B.msg_doc('roDelete', 70, ro_id=rng.choice(['RO', 'ELSEWHERE']))]
         for m_ in msgs:
